@@ -546,6 +546,7 @@ func checkPackageState(r *Run, cg *CallGraph, reach map[*types.Func]*cgEdge) {
 
 // checkInputsUnchanged: Translate's query argument only reaches Optimize → cypher.Copy; NewTranslator copies the parameter map.
 func checkInputsUnchanged(r *Run, cg *CallGraph) {
+	_ = cg
 	tp := r.MustPkg("cypher/models/pgsql/translate")
 	op := r.MustPkg("cypher/models/pgsql/optimize")
 	info := tp.TypesInfo
